@@ -7,7 +7,7 @@ use ross_protocol::event::{bcm::*, bootloader::*, button::*, configurator::*, ga
 use ross_protocol::interface::{usart::UsartError, Interface, InterfaceError};
 use ross_protocol::packet::Packet;
 use ross_protocol::protocol::{Protocol, ProtocolError};
-use std::cell::RefCell;
+use std::cell::{Cell, RefCell};
 use std::collections::VecDeque;
 use std::panic::{catch_unwind, AssertUnwindSafe};
 use std::rc::Rc;
@@ -106,19 +106,9 @@ pub fn gen(r: &mut Rng) -> String {
                 let cap = r.flip();
                 let token = next_token;
                 next_token += 1;
-                // packets the handler transmits from inside its callback: never to our own address (C15: "to other devices")
-                let ss: Vec<String> = (0..r.below(3))
-                    .map(|_| {
-                        let mut p = gen_packet(r, own);
-                        if p.device_address == own {
-                            p.device_address = own.wrapping_add(1);
-                        }
-                        if own == 0xffff && p.device_address == 0xffff {
-                            p.device_address = 1;
-                        }
-                        show::packet(&p)
-                    })
-                    .collect();
+                // packets the handler sends from inside its callback through the `&mut Protocol` it is handed: to other
+                // devices (C15) and, about one in four, to the device's own address (a re-entrant loop-back, C16)
+                let ss: Vec<String> = (0..r.below(3)).map(|_| show::packet(&gen_packet(r, own))).collect();
                 let id = (0u32..).find(|i| !live.contains(i)).unwrap();
                 live.push(id);
                 ops.push(format!("add/{}/{}/{}", if cap { 'c' } else { 'o' }, token, list(&ss, "+")));
@@ -229,23 +219,34 @@ pub fn exec(t: &[&str]) -> Option<String> {
     let txq: VecDeque<bool> = if *t.get(2)? == "-" { VecDeque::new() } else { t[2].chars().map(|c| c == 'o').collect() };
     let log: Log = Rc::new(RefCell::new(vec![]));
     let left = Rc::new(RefCell::new(rxq.len()));
+    // 0 outside callbacks, 1 while some handler's callback is sending: a handler invoked re-entrantly (by a loop-back send
+    // of another callback) records the packet as `n<token>/…` and sends nothing, which bounds the nesting at one level
+    let depth = Rc::new(Cell::new(0u32));
     let mut pr = Protocol::new(own, ScriptIface { rx: rxq, tx: txq, log: log.clone(), left: left.clone() });
     let mut results: Vec<String> = vec![];
     for op in split_list(t.get(3)?, ';') {
         let a: Vec<&str> = op.split('/').collect();
+        depth.set(0);
         match a[0] {
             "add" => {
                 let cap = *a.get(1)? == "c";
                 let token: u32 = a.get(2)?.parse().ok()?;
                 let sends: Vec<Packet> = split_list(a.get(3)?, '+').iter().map(|s| show::parse_packet(s)).collect::<Option<_>>()?;
                 let l = log.clone();
+                let d = depth.clone();
                 let id = pr
                     .add_packet_handler(
                         Box::new(move |p: &Packet, pr: &mut Protocol<ScriptIface>| {
+                            if d.get() != 0 {
+                                l.borrow_mut().push(format!("n{}/{}", token, show::packet(p)));
+                                return;
+                            }
                             l.borrow_mut().push(format!("c{}/{}", token, show::packet(p)));
+                            d.set(1);
                             for q in sends.iter() {
                                 let _ = pr.send_packet(q);
                             }
+                            d.set(0);
                         }),
                         cap,
                     )
